@@ -399,8 +399,8 @@ def run_process_history(ctx=None):
         conv = Converter(lst)
         lst.append(to_record(extra))
         lst.sort(key=lambda r: r.uri_prefix)
-        other = Converter(conv.records)
         try:
+            other = Converter(conv.records)
             other.add_record(to_record(extra))
         except ValueError:
             pass
